@@ -346,7 +346,40 @@ def rule_exocyclic_double(ck, repo, R):
     f = repo.func('chython.algorithms.aromatics.thiele:Thiele.thiele')
     ck.require(f is not None, 'Thiele.thiele not found')
     asg = [n for n in ast.walk(f.node) if isinstance(n, ast.Assign) and src(n.targets[0]) == 'double_bonded']
-    ck.require(len(asg) == 1 and isinstance(asg[0].value, ast.SetComp), 'thiele: double_bonded set comprehension not found')
+    ck.require(len(asg) == 1, 'thiele: double_bonded assignment not found')
+    if not isinstance(asg[0].value, ast.SetComp):
+        # explicit loop form: for n[, nb] in rings[.items()]: for m, b in bonds[n].items(): if <cond>: double_bonded.add(n)
+        adds = [c for c in ast.walk(f.node) if isinstance(c, ast.Call) and src(c.func) == 'double_bonded.add' and c.args]
+        ck.require(len(adds) == 1, 'thiele: double_bonded is neither a set comprehension nor filled by one add() in a loop')
+        parents_ = {}
+        for p_ in ast.walk(f.node):
+            for ch in ast.iter_child_nodes(p_):
+                parents_[ch] = p_
+        conds, loops_ = [], []
+        p_ = parents_.get(adds[0])
+        while p_ is not None and p_ is not f.node:
+            if isinstance(p_, ast.If):
+                conds += list(conjuncts(p_.test))
+            elif isinstance(p_, ast.For):
+                loops_.append(p_)
+            p_ = parents_.get(p_)
+        ck.require(len(loops_) >= 2, 'thiele: loops around double_bonded.add not recognised')
+        inner_l, outer_l = loops_[0], loops_[1]
+        n_var = src(adds[0].args[0])
+        ck.require(isinstance(inner_l.target, ast.Tuple) and len(inner_l.target.elts) == 2 and src(inner_l.iter) == f'bonds[{n_var}].items()', 'thiele: inner loop over bonds[n].items() not found')
+        m_var, b_var = [e.id for e in inner_l.target.elts]
+        nb_names = {f'rings[{n_var}]'}
+        if src(outer_l.iter) == 'rings.items()' and isinstance(outer_l.target, ast.Tuple) and len(outer_l.target.elts) == 2 and src(outer_l.target.elts[0]) == n_var:
+            nb_names.add(src(outer_l.target.elts[1]))
+        else:
+            ck.require(src(outer_l.iter) == 'rings' and src(outer_l.target) == n_var, 'thiele: outer loop over the ring atoms not found')
+        cs = {src(c) for c in conds}
+        ok_ = len(cs) == 2 and f'{b_var} == 2' in cs and any(f'{m_var} not in {nb}' in cs for nb in nb_names)
+        ck.decide(ok_, R, 'exocyclic-double-bond', sorted(cs),
+                  f'thiele marks a ring atom as double-bonded outside the ring under `{" and ".join(sorted(cs))}`; required `{b_var} == 2 and {m_var} not in rings[{n_var}]` (bond-level test)',
+                  file=f.file, line=adds[0].lineno, func=f.qualname, construct=src(parents_[adds[0]])[:160])
+        ck.floor(R, 1)
+        return
     comp = asg[0].value
     outer = comp.generators[0]
     ck.require(isinstance(outer.target, ast.Name) and src(outer.iter) == 'rings', 'thiele: double_bonded does not iterate rings')
